@@ -13,6 +13,33 @@ Families
                copy-data), over the in-memory wire.
   openssh-sftp OpenSSH `sftp -b` client against an asyncssh listener on
                127.0.0.1 (independent client implementation; real sockets).
+
+Oracle (all families): a call that returns normally left exactly the source
+bytes at the destination (for file reads: exactly the file's bytes at the
+requested range; complete whenever the documented parallel path is used,
+i.e. the request is larger than block_size); a call during which any data
+request got an error status, or - non-sparse - whose source ended before the
+size STAT announced, raised SFTPError/OSError; no call raises when every
+request succeeded; no call hangs while the server owes it nothing.
+
+Exclusions / soundness notes
+  * Early EOF is not generated together with copy-data: the length check is
+    the server's in that mode (the client only learns OK/failure).
+  * With sparse=True an early EOF may return normally (property text), the
+    destination must then equal the bytes that really exist.
+  * The file position after a call with an explicit offset is not documented;
+    it is treated as unknown until the next absolute seek.  A single-request
+    read (size <= block_size, or block_size=None) may legitimately return a
+    short result when the server answered short; only prefix-correctness and
+    progress (>= 1 byte) are asserted there.
+  * FX_EOF as the answer to a WRITE and error statuses on CLOSE are not
+    generated ("status != OK/EOF" on blocks only).
+  * Three defects of the unchanged tree are recorded in known_findings.json
+    with their own signatures (trailing hole dropped by sparse copies;
+    read(-1) from beyond EOF -> OverflowError; read_parallel with
+    block_size=None -> TypeError); the last two shapes are only generated
+    when the case carries known_shapes=true so that ordinary programs run to
+    their end.
 """
 
 import asyncio
@@ -498,7 +525,7 @@ class Backend:
 
 
 def run_program(case, backend: Backend, sftp, labels: set,
-                max_read_len: int) -> None:
+                max_read_len: int, max_write_len: int) -> None:
     """Interpret case['ops'] on one SFTPClientFile and compare every result
     with a bytes+position model of a file (Python file semantics for
     implicit-offset calls; calls with an explicit offset leave the position
@@ -751,7 +778,7 @@ def run_program(case, backend: Backend, sftp, labels: set,
 
                 content[where:where + n] = data
 
-            if write_parallel(bs, n, max_read_len):
+            if write_parallel(bs, n, max_write_len):
                 labels.add('write-parallel-path')
 
             if append:
@@ -859,9 +886,9 @@ def run_file(case) -> CaseResult:
     try:
         pair.handshake()
         sftp = start_client(pair, case['version'])
-        max_read_len = case['limits'][0] if case['limits'] else 16384
+        limits = case['limits'] or [16384, 16384]
         run_program(case, ModelBackend(pair, model), sftp, labels,
-                    max_read_len)
+                    limits[0], limits[1])
         sm.finish(pair, model)
         stats = model.stats
 
@@ -1086,7 +1113,7 @@ def run_real(case) -> CaseResult:
                 f.write(sm.pattern(case['seed'], case['init_size']))
 
             run_program(case, RealBackend(pair, root, counters), sftp, labels,
-                        4 * 1024 * 1024)
+                        4 * 1024 * 1024, 4 * 1024 * 1024)
         else:
             kw = {'block_size': case['bs'], 'max_requests': case['mr'],
                   'sparse': case['sparse']}
@@ -1138,7 +1165,7 @@ def run_real(case) -> CaseResult:
                         [] if holes and case['sparse'] else None)
 
             if holes and case['sparse']:
-                st_src, st_dst = os.stat(src), os.stat(dst)
+                st_dst = os.stat(dst)
 
                 if st_dst.st_blocks < (st_dst.st_size + 511) // 512:
                     labels.add('dest-sparse')
@@ -1368,7 +1395,7 @@ def openssh_strategy(tier: str):
 
 FAMILIES = [
     Family('model-xfer', run_xfer, strategy=xfer_strategy,
-           budget={'quick': 2000, 'thorough': 24000},
+           budget={'quick': 1400, 'thorough': 16000},
            required={'all': ['op-get', 'op-put', 'op-copy', 'op-mget',
                              'op-getdir', 'op-mcopy', 'op-mput',
                              'out-of-order',
@@ -1379,7 +1406,7 @@ FAMILIES = [
                              'v3', 'v6']},
            timeout_is_violation=True, case_timeout=120),
     Family('model-file', run_file, strategy=file_strategy,
-           budget={'quick': 2000, 'thorough': 24000},
+           budget={'quick': 1400, 'thorough': 16000},
            required={'all': ['read-parallel-path', 'read-single-path',
                              'read_parallel', 'write-parallel-path',
                              'append-write', 'explicit-offset', 'seek',
@@ -1387,13 +1414,13 @@ FAMILIES = [
                              'error-injected', 'write-past-end']},
            timeout_is_violation=True, case_timeout=120),
     Family('real-server', run_real, strategy=real_strategy,
-           budget={'quick': 640, 'thorough': 8000},
+           budget={'quick': 480, 'thorough': 6000},
            required={'all': ['op-get', 'op-put', 'op-copy', 'op-file',
                              'sparse-holes', 'short-read-continued',
                              'copy-data>256k', 'v3', 'v4', 'v5', 'v6']},
            timeout_is_violation=True, case_timeout=120),
     Family('openssh-sftp', run_openssh, strategy=openssh_strategy,
-           budget={'quick': 40, 'thorough': 300},
+           budget={'quick': 40, 'thorough': 240},
            required={'all': ['openssh-put', 'openssh-get']},
            shards={'quick': 8, 'thorough': 16},
            timeout_is_violation=True, case_timeout=120),
